@@ -340,6 +340,8 @@ pub fn run(ctx: &Ctx, rep: &mut Report) {
     // generation catalogs and key sets are built once per shard
     let catalogs: Vec<Arc<QCatalog>> = (0..gens as u64).map(|g| Arc::new(gen_catalog_for(g))).collect();
     let keysets: Vec<Arc<quandary::server::TsigKeyMap>> = (0..(gens * 8) as u64).map(|g| Arc::new(key_map(&[key_for(g), rot_key_for(g)]))).collect();
+    let pair_base: u64 = 1000;
+    let pair_catalogs: Vec<Arc<QCatalog>> = if ctx.is_miri() { Vec::new() } else { (0..48u64).map(|g| Arc::new(gen_catalog_for(pair_base + g))).collect() };
     for case in ctx.case_range(n) {
         rep.current_case = case;
         let mut rng = ctx.rng("c32", case);
@@ -422,6 +424,44 @@ pub fn run(ctx: &Ctx, rep: &mut Report) {
         }
         FP_MODE.store(0, Ordering::Relaxed);
         *CURRENT.lock().unwrap() = None;
+        // two callers of set_catalog at the same instant: when both have returned, the catalog in
+        // use must be one of the two they installed (not an older one)
+        if !ctx.is_miri() {
+            let mut bufs = Buffers::new(1232);
+            let qn = RName::simple("q.z.");
+            for trial in 0..24u64 {
+                let (a, b) = (pair_base + 2 * trial, pair_base + 2 * trial + 1);
+                let gate = std::sync::atomic::AtomicUsize::new(0);
+                std::thread::scope(|sc| {
+                    for g in [a, b] {
+                        let (server, cat, gate) = (&shared.server, pair_catalogs[(g - pair_base) as usize].clone(), &gate);
+                        sc.spawn(move || {
+                            gate.fetch_add(1, Ordering::SeqCst);
+                            while gate.load(Ordering::SeqCst) < 2 {
+                                std::hint::spin_loop();
+                            }
+                            server.set_catalog(cat);
+                        });
+                    }
+                });
+                let mut spec = MsgSpec { id: trial as u16, ..Default::default() };
+                spec.questions.push((Some(NameEnc::Plain(qn.clone())), T_A, C_IN));
+                let (req, _) = encode(&spec);
+                rep.eval();
+                if let Ok(Some(r)) = handle(&shared.server, &req, LOCALHOST, true, &mut bufs) {
+                    if let Ok(m) = m02(&r) {
+                        let ms = markers(&m);
+                        if let Some((_, g0)) = ms.first() {
+                            if *g0 != a && *g0 != b {
+                                rep.violation("c32:concurrent-set-catalog-lost", format!("two threads installed catalog generations {} and {} at the same time; after both returned a request was answered from generation {}", a, b, g0), Json::obj(vec![("response", Json::hex(&r))]));
+                                break;
+                            }
+                            rep.hist("concurrent-set-catalog-pairs");
+                        }
+                    }
+                }
+            }
+        }
         rep.eval();
         let total = stats[0].load(Ordering::Relaxed);
         rep.evals(total);
